@@ -1,2 +1,30 @@
-/- stub: line-protocol driver for C05 (to be written) -/
-def main : IO Unit := pure ()
+/- Line-protocol driver of C05: reads abstract models (format of checks/c04_model.py `lean_lines`, plus a line
+   `prefs b b b ...` choosing where the XTA rendering uses chained transitions) and prints the callback trace the model
+   of the XTA grammar predicts for the XTA rendering, the one the model of the XML reader predicts for the XML rendering,
+   and the canonical dump of the document (the same for both by theorem C05_equivalent; the driver reports if not). -/
+import UtapModel.Model.AModelIO
+import UtapModel.Model.Xta
+open UtapModel.AM
+
+def report (id : String) (M : AModel) (prefs : List Bool) : List String :=
+  let xta := xtaRead (renderXta prefs M)
+  let xml := readXml (renderXml M)
+  let sx := build xta
+  let sm := build xml
+  [s!"BEGIN {id}", s!"SUBSET {b01 M.inCommonSubset}", s!"SAME-DOC {b01 (decide (sx.doc = sm.doc))}"] ++
+  (traceLines {} xta).map ("XTATRACE " ++ ·) ++ (traceLines {} xml).map ("XMLTRACE " ++ ·) ++ docLines sx.doc ++ [s!"END {id}"]
+
+partial def loop (h out : IO.FS.Stream) (id : String) (ps : PS) (prefs : List Bool) : IO Unit := do
+  let line ← h.getLine
+  if line.isEmpty then return ()
+  let ws := (line.trimAscii.toString.splitOn " ").filter (· ≠ "")
+  match ws with
+  | ["model", i] => loop h out i {} []
+  | "prefs" :: bs => loop h out id ps (bs.map (· = "1"))
+  | ["end"] =>
+    for l in report id ps.m prefs do out.putStrLn l
+    loop h out id {} []
+  | _ => loop h out id (feed ps ws) prefs
+
+def main : IO Unit := do
+  loop (← IO.getStdin) (← IO.getStdout) "?" {} []
